@@ -142,7 +142,7 @@ def register3(reg):
     SHAPE = [f'top_only({S}, {OS})', f'spec_same_text({OTOP}, {TOP})']
     contract(reg, 'tatsu/util/misc.py:prune_dict', ['C04', 'C05', 'C03'], {'d': 'MemoD', 'predicate': 'any'}, ret='None', verify=False,
              modifies=['d'], ensures=['submap(d, old_d)'], note='removes the entries the predicate selects; C04 checks the selection in a bounded run')
-    contract(reg, f'{K}:ParserCore.cut', ALL + ['C04'], {'self': 'Ctx'}, ret='None', requires=REQ,
+    contract(reg, f'{K}:ParserCore.cut', ALL + ['C04', 'C03'], {'self': 'Ctx'}, ret='None', requires=REQ,
              modifies=['self.states.state_stack', 'self._memos'],
              ensures=[('property', f'{S} == {OS}[:-1] + [spec_with_cut({OTOP})]'),
                       ('property', 'submap(self._memos, old_self._memos)'),
